@@ -22,7 +22,7 @@ from harness.core import q, coq_list, coq_bool, coq_opt
 PID = "C10"
 GEN_GROUPS = ["Evse", "EvseZ", "Battery"]
 TARGETS = ["coq/Props/C10.vo", "coq/Model/SimPerm.vo", "coq/Proofs/SimShift.vo"]
-CASES = {"quick": 330, "thorough": 3300}          # runs (6 per scenario)
+CASES = {"quick": 360, "thorough": 3600}          # runs (6 per scenario)
 CORR_HEADER = ("From Coq Require Import ZArith QArith List String.\n"
                "From ACN Require Import Base.Num Model.EVSE Model.SimPerm.\nImport ListNotations.\n"
                "Open Scope Q_scope.\n")
@@ -31,7 +31,7 @@ SHARD = 24
 RULE = ("one scenario = 1-5 stations (continuous or finite-rate EVSEs, shuffled names, mixed voltages / phase angles), "
         "0-3 constraints with mixed-sign coefficients, 1-9 non-overlapping sessions (back-to-back stays, arrival ties across "
         "stations), scheduler in {uncontrolled, scripted multi-period, sorted FCFS/EDF/LLF/LRPT with distinct keys}; "
-        "7 runs per scenario (interrupted-and-resumed, original, stations permuted, constraints permuted, sessions permuted, shifted by k, other "
+        "9 runs per scenario (deep-copied clone run beside the live original, stored-and-reloaded before the run, interrupted-and-resumed, original, stations permuted, constraints permuted, sessions permuted, shifted by k, other "
         "PYTHONHASHSEED); every 5th scenario is a single-phase site (equal phase angles) with a feeder row of ones over all "
         "stations and tighter 0/1 pod rows that bind, every 7th a three-phase site with binding constraints; stream 2: in-process sequences A, <unrelated / re-wired sites with the same ids>, A on three-phase "
         "sites with binding constraints and sorted schedulers - the second run of A must equal the first exactly; "
@@ -226,7 +226,7 @@ def run_variant(sc, variant, nested=None, alg_pool=None):
     from acnportal.algorithms import (UncontrolledCharging, SortedSchedulingAlgo, BaseAlgorithm,
                                       first_come_first_served, earliest_deadline_first, least_laxity_first,
                                       largest_remaining_processing_time)
-    vi = variant_input(sc, "orig" if variant == "resume" else variant)
+    vi = variant_input(sc, base_variant(variant))
     o = sc.get("opts", {})
     tol = tols_of(sc)
     net = ChargingNetwork(violation_tolerance=tol[0], relative_tolerance=tol[1]) if o.get("tols") else ChargingNetwork()
@@ -339,14 +339,32 @@ def run_variant(sc, variant, nested=None, alg_pool=None):
             return sch
         al.schedule = schedule
         return al, inner
-    alg, restore = arm(make_alg())
-    sim = Simulator(net, alg, EventQueue(events), datetime(2021, 3, 1), period=period_of(sc), verbose=False)
+    raw_alg = make_alg()
+    sim = Simulator(net, raw_alg, EventQueue(events), datetime(2021, 3, 1), period=period_of(sc), verbose=False)
     if o.get("mutate_args"):
         events.clear()                               # caller-owned list mutated after the call
     crash = None
+    keep, original_first = None, sc["perm_seed"] % 2 == 0
     with warnings.catch_warnings(record=True) as wlog:
         warnings.simplefilter("always")
         try:
+            if variant == "clone":
+                # a deep copy of the freshly built simulator is run while the original is alive (the original itself is run
+                # before or after the clone); the clone must behave like an independently built simulation
+                import copy
+                keep = sim
+                sim = copy.deepcopy(keep)
+                if original_first:
+                    keep.run()
+                net, raw_alg = sim.network, sim.scheduler
+            elif variant == "reloaded":
+                # the freshly built simulation is stored and reloaded before it is run, and given a fresh scheduler
+                keep = sim
+                sim = Simulator.from_json(keep.to_json())
+                raw_alg = make_alg()
+                sim.update_scheduler(raw_alg)
+                net = sim.network
+            alg, restore = arm(raw_alg)
             try:
                 sim.run()
             except (Interrupted, InterruptedBase):
@@ -357,9 +375,16 @@ def run_variant(sc, variant, nested=None, alg_pool=None):
                     sim.max_recompute = alg.max_recompute
                     alg.register_interface(Interface(sim))
                 sim.run()
+            if variant == "clone" and not original_first:
+                keep.run()
         except Exception as ex:  # noqa
             crash = "%s: %s" % (type(ex).__name__, str(ex)[:160])
-    alg.schedule = restore                               # pooled objects go back unwrapped
+    try:
+        alg.schedule = restore                           # pooled objects go back unwrapped
+    except NameError:
+        pass
+    if keep is not None:
+        evs = {k: sim.ev_history[k] for k in evs if k in sim.ev_history}
     warned = set()
     for w in wlog:
         m = str(w.message)
@@ -471,7 +496,7 @@ def case_coq(sc, vi, out):
         coq_bool(not feas_ambiguous(sc, vi, out)), coq_bool(bool(out["crash"])))
 
 
-VARIANTS = ["orig", "stperm", "cperm", "seperm", "shift", "resume"]
+VARIANTS = ["orig", "stperm", "cperm", "seperm", "shift", "resume", "clone", "reloaded"]
 
 
 def other_hashseed(scs):
@@ -491,7 +516,7 @@ def other_hashseed(scs):
 
 
 def base_variant(v):
-    return "orig" if v in ("hash", "resume") else v
+    return "orig" if v in ("hash", "resume", "clone", "reloaded") else v
 
 
 def scenario_cases(sc, outs):
@@ -521,7 +546,7 @@ def corpus_scenarios():
 
 
 def gen_cases(rng, n, tier):
-    n_sc = max(1, n // 7)
+    n_sc = max(1, n // 9)
     # every 5th scenario: single-phase site, feeder row of ones + binding pod rows; every 7th: three-phase site with binding
     # constraints; the rest: the general generator
     scs = [rand_singlephase(rng, i) if i % 5 == 2 else rand_threephase(rng, i) if i % 7 == 3 else
@@ -705,7 +730,7 @@ def all_sequence_cases(seqs):
 
 
 def extra_streams(rng, tier):
-    n = {"quick": 30, "thorough": 300}[tier]
+    n = {"quick": 24, "thorough": 300}[tier]
     return [("q", CORR_HEADER, CHECK_FN, all_sequence_cases([rand_sequence(rng, 10 ** 5 + 10 * i) for i in range(n)]))]
 
 
@@ -788,7 +813,7 @@ def monitor(case):
     for v, x in p.items():
         if v != "amb_any" and x.get("df_ok") not in (True, None):
             return "variant %s: pilot_signals_as_df / charging_rates_as_df disagree with the matrices (%r)" % (v, x.get("df_ok"))
-    for v in ["stperm", "cperm", "seperm", "hash", "resume"]:
+    for v in ["stperm", "cperm", "seperm", "hash", "resume", "clone", "reloaded"]:
         x = p[v]
         for what in ("pilots", "rates"):
             r = rows_equal(o[what], x[what], "%s/%s" % (v, what))
